@@ -233,6 +233,8 @@ func (e *executor[R]) executeAsync(fn func(exec Execution[R]) (R, error), withEx
 		ctx, cancelFunc = context.WithCancel(ctx)
 	}
 	exec := newExecution[R](ctx)
+	// Cancel the context together with recording the cancel result, under the execution's lock
+	exec.cancelFunc = cancelFunc
 	result := &executionResult[R]{
 		execution:  exec,
 		cancelFunc: cancelFunc,
